@@ -169,3 +169,45 @@ def hash_update_sequences(fn: ast.FunctionDef, ctor_suffix: str = '.new') -> dic
             if (cn.endswith('.update') and cn[:-7] in seqs) or (cn.endswith('.copy') and cn[:-5] in seqs):
                 return None
     return seqs
+
+
+def whole_reads_in_item_loops(fn: ast.AST) -> tuple[int, list[tuple[ast.For, str, ast.AST]]]:
+    """A loop over the pieces of a split text (`for item in value.split(',')`, directly or through a local
+    bound to the split) decides each piece from the piece: a read of the whole text inside the loop body makes
+    the verdict on one item depend on its neighbours (`if '-' in value` where `if '-' in item` was meant).
+    Reads inside a `raise` (the message quotes the input) do not count.
+    -> (loops analysed, [(loop, name of the whole text, reading node)])"""
+    found: list[tuple[ast.For, str, ast.AST]] = []
+    n_loops = 0
+    splits: dict[str, str] = {}                 # local bound once to <name>.split(..) -> name
+    for a in ast.walk(fn):
+        if isinstance(a, ast.Assign) and len(a.targets) == 1 and isinstance(a.targets[0], ast.Name):
+            b = _split_base(a.value)
+            if b is not None:
+                splits[a.targets[0].id] = b
+    for loop in [n for n in ast.walk(fn) if isinstance(n, ast.For)]:
+        base = _split_base(loop.iter)
+        if base is None and isinstance(loop.iter, ast.Name):
+            base = splits.get(loop.iter.id)
+        if base is None:
+            continue
+        n_loops += 1
+        stored = {x.id for st in loop.body for x in ast.walk(st) if isinstance(x, ast.Name) and isinstance(x.ctx, ast.Store)}
+        if base in stored:
+            continue                            # the name is reused for something else inside the loop
+        in_raise = {id(x) for st in loop.body for r in ast.walk(st) if isinstance(r, ast.Raise) for x in ast.walk(r)}
+        for st in loop.body:
+            for x in ast.walk(st):
+                if isinstance(x, ast.Name) and x.id == base and isinstance(x.ctx, ast.Load) and id(x) not in in_raise:
+                    found.append((loop, base, x))
+    return n_loops, found
+
+
+def _split_base(e: ast.AST) -> str | None:
+    while isinstance(e, ast.Call) and isinstance(e.func, ast.Name) and e.func.id in ('enumerate', 'list', 'sorted', 'reversed', 'iter') \
+            and e.args:
+        e = e.args[0]
+    if isinstance(e, ast.Call) and isinstance(e.func, ast.Attribute) and e.func.attr in ('split', 'rsplit', 'splitlines') \
+            and isinstance(e.func.value, ast.Name):
+        return e.func.value.id
+    return None
